@@ -131,8 +131,24 @@ def vec_layout(f, target_pred=None, must_targets=None):
     # 'must': executed on every path from entry to a normal return
     rets = f.return_blocks() if must_targets is None else must_targets
     inf = f.infeasible_edges()
+    # copies of one source site (decision threading duplicates tails) count as that one site: an append that lies on a copy
+    # from which no target is reachable does not take part in the layout, and identical copies are listed once
+    if any('clone_of' in b for b in f.blocks):
+        items = [it for it in items if any(x in f.reachable(it['block'], removed_edges=inf) for x in rets)]
+        seen = {}
+        kept = []
+        for it in items:
+            k_ = (f.origin(it['block']), it['op'], it['recv'] if not isinstance(it['recv'], tuple) else None, short(it['value']))
+            if k_ in seen:
+                seen[k_]['copies'].append(it['block'])
+                continue
+            it['copies'] = [it['block']]
+            seen[k_] = it
+            kept.append(it)
+        items = kept
     for it in items:
-        r = f.reachable(0, removed_blocks=[it['block']], removed_edges=inf)
+        same = [b for b in range(f.n) if f.origin(b) == f.origin(it['block'])] if 'copies' in it else [it['block']]
+        r = f.reachable(0, removed_blocks=same, removed_edges=inf)
         it['must'] = not any(x in r for x in rets)
         # inside a loop?
         it['in_loop'] = it['block'] in f.reachable(it['block'], removed_blocks=[]) and any(it['block'] in f.reachable(s) for s in f.succ[it['block']])
